@@ -15,7 +15,7 @@ const PROP: &str = "C08";
 
 fn operands<F: Flt>(l: &Layout, salt: usize) -> Vec<Parts<F>> {
     let mut out = Vec::new();
-    for (k, re) in [-3.0, -0.5, 2.0, 0.0].iter().enumerate() {
+    for (k, re) in [-3.0, -0.5, 2.0, 0.0, 1.0].iter().enumerate() {
         let g = l.ngroups();
         for pat in 0..(1usize << g) {
             let present: Vec<bool> = (0..g).map(|i| pat & (1 << i) == 0).collect();
@@ -170,6 +170,16 @@ macro_rules! forms {
                 $st.evaluations += 1;
                 if let Some(i) = same(l, &ma, &want) {
                     report($st, "mul_add", i, &ma, &want, vec![pa, pb]);
+                }
+                // addends of every real part, 0 included (a zero VALUE is not a zero NUMBER)
+                for pc in bsv.iter().filter(|p| p.present.iter().all(|x| *x)) {
+                    let c2: D = mk(pc);
+                    let ma = pt(&a.mul_add(b.clone(), c2.clone()));
+                    let want = pt(&(&(&a * &b) + &c2));
+                    $st.evaluations += 1;
+                    if let Some(i) = same(l, &ma, &want) {
+                        report($st, "mul_add", i, &ma, &want, vec![pa, pb, pc]);
+                    }
                 }
                 let items = [a.clone(), b.clone(), c.clone()];
                 for n in 0..=3usize {
@@ -329,7 +339,7 @@ fn main() {
         mode: cli.mode,
         seed: cli.seed,
         start,
-        rule: "for every concrete type (scalar types over both widths, static and dynamic vector types incl. length 0, nested types): the 16 owned/borrowed forms of + - * /, 2 of neg, 4 dual and 8 scalar compound/plain operators, Inv, Sum/Product over owned and borrowed iterators of length 0..3, default mul_add, From<F>, the 14 FromPrimitive constructors, Zero, One (also set_zero / set_one), 19 FloatConst constants - each against the canonical form `&a op &b` with scalars lifted by from, on dyadic operands x every presence pattern x 4 real parts (one of them exactly 0). Non-trivial = a form applied to operands with non-zero parts.".into(),
+        rule: "for every concrete type (scalar types over both widths, static and dynamic vector types incl. length 0, nested types): the 16 owned/borrowed forms of + - * /, 2 of neg, 4 dual and 8 scalar compound/plain operators, Inv, Sum/Product over owned and borrowed iterators of length 0..3, default mul_add, From<F>, the 14 FromPrimitive constructors, Zero, One (also set_zero / set_one), 19 FloatConst constants - each against the canonical form `&a op &b` with scalars lifted by from, on dyadic operands x every presence pattern x 5 real parts (among them exactly 0 and exactly 1). Non-trivial = a form applied to operands with non-zero parts.".into(),
         assumptions: vec!["additive, forwarding and multiplicative-scalar forms: numerically equal in every part; scalar division and inv vs 1/a: within 16 u".into()],
         extra: json!({}),
         exhaustive: true,
